@@ -102,6 +102,9 @@ func (g *gcsCase) traceLine() []byte {
 		if i > 0 {
 			sb.WriteByte(',')
 		}
+		if corrupt("gcs-trace") && i == 0 && g.kind == "small" && len(g.shape) == 3 && g.member[0] {
+			v ^= 2 // self-test: a falsified recorded value must be noticed
+		}
 		sb.WriteString(limbs(v))
 	}
 	sb.WriteString(`],"batches":[`)
